@@ -676,7 +676,21 @@ func valEqual(a, b Val) bool {
 		return ok && x == y
 	case *HashState:
 		y, ok := b.(*HashState)
-		return ok && x == y
+		if !ok {
+			return false
+		}
+		if x == y {
+			return true
+		}
+		if x.Alg != y.Alg || x.Key != y.Key || x.Data != y.Data || x.Reads != y.Reads || len(x.Items) != len(y.Items) || (x.Items == nil) != (y.Items == nil) {
+			return false
+		}
+		for i := range x.Items {
+			if x.Items[i] != y.Items[i] {
+				return false
+			}
+		}
+		return true
 	case *Choice:
 		y, ok := b.(*Choice)
 		return ok && (x == y || (x.Cond == y.Cond && valEqual(x.A, y.A) && valEqual(x.B, y.B)))
